@@ -156,6 +156,15 @@ func selfTags(c *Case, results ...Canon) []string {
 			break
 		}
 	}
+	// one side failed with the reference's duplicate check (it ran through the fallback, or on another
+	// partitioning), the other, evaluated natively, did not detect the colliding label sets
+	if len(results) == 2 && (results[0].Kind == "error") != (results[1].Kind == "error") {
+		for _, r := range results {
+			if r.Kind == "error" && r.Err == "same-labelset" {
+				tags = append(tags, "same-labelset-not-detected")
+			}
+		}
+	}
 	if strings.Contains(c.Query, "timestamp(") {
 		tags = append(tags, "timestamp-function")
 	}
